@@ -381,5 +381,68 @@ def r18_8(ctx):
         bad = [r for r in raises if (f"{v} is None", False) not in (fl.guards_at(r) or set())]
         (ctx.bad(construct, "an error is raised although the level had no named option (popped prefix None)", f.loc(bad[0])) if bad else ctx.ok(construct, f.loc(pops[0])))
 
+def _fold_str(fn: ast.AST, e: ast.AST, depth: int = 4) -> Optional[str]:
+    """constant value of a string expression built from literals, f-strings and single-assignment string locals of fn"""
+    if isinstance(e, ast.Constant) and isinstance(e.value, str):
+        return e.value
+    if isinstance(e, ast.JoinedStr):
+        out = ""
+        for v in e.values:
+            if isinstance(v, ast.Constant):
+                out += str(v.value)
+            elif isinstance(v, ast.FormattedValue) and v.conversion == -1 and v.format_spec is None:
+                t = _fold_str(fn, v.value, depth)
+                if t is None:
+                    return None
+                out += t
+            else:
+                return None
+        return out
+    if isinstance(e, ast.Name) and depth > 0:
+        defs = [n.value for n in ast.walk(fn) if isinstance(n, ast.Assign) and len(n.targets) == 1 and isinstance(n.targets[0], ast.Name) and n.targets[0].id == e.id]
+        if len(defs) == 1:
+            return _fold_str(fn, defs[0], depth - 1)
+    if isinstance(e, ast.BinOp) and isinstance(e.op, ast.Add):
+        a, b = _fold_str(fn, e.left, depth), _fold_str(fn, e.right, depth)
+        return None if a is None or b is None else a + b
+    return None
+
+
+def r18_9(ctx):
+    """R18.9 quoted strings are opaque to the name checks: the regular expressions of IndentAndNameChecker (constants of the
+    source, folded from their literal pieces) are applied to three witness texts: `"go if ready"` has no condition for the
+    `default` rule to split at, `"go if ready" if FOO` splits after the closing quote, and `"say \"hi\" now"` is one
+    quoted symbol. Otherwise a compliant file is reported as having lower-case config names and --replace rewrites the
+    inside of its strings."""
+    repo = ctx.repo
+    f = repo.func(f"{MOD}:IndentAndNameChecker.__init__")
+    ctx.analysed(f.qual)
+    pats: Dict[str, Tuple[str, int]] = {}
+    for n in ast.walk(f.node):
+        if isinstance(n, ast.Assign) and isinstance(n.value, ast.Call) and ast.unparse(n.value.func) == "re.compile" and n.value.args:
+            t = _fold_str(f.node, n.value.args[0])
+            flags = re.X if any("re.X" in ast.unparse(a) for a in n.value.args[1:]) else 0
+            if t is not None:
+                pats[ast.unparse(n.targets[0]).replace("self.", "")] = (t, flags)
+    if "reg_default" not in pats or "reg_symbol" not in pats:
+        raise AnchorError(f"IndentAndNameChecker.__init__: reg_default / reg_symbol not foldable ({sorted(pats)})")
+    try:
+        rd = re.compile(*pats["reg_default"])
+        rs = re.compile(*pats["reg_symbol"])
+    except re.error as e:
+        raise AnalysisError(f"pattern of the checker does not compile: {e}")
+    construct = "IndentAndNameChecker/`default` lines are split at an `if` outside quotes"
+    m1 = rd.match('"go if ready"')
+    m2 = rd.match('"go if ready" if FOO')
+    ok = m1 is None and m2 is not None and m2.group("expression0") == '"go if ready"'
+    (ctx.ok(construct, f.loc()) if ok else
+     ctx.bad(construct, f"`default \"go if ready\"` is split into {m1.groupdict() if m1 else None} / with a condition into {m2.groupdict() if m2 else None}: the words "
+             "of the string are taken for config names", f.loc()))
+    construct = "IndentAndNameChecker/a quoted symbol ends at the first unescaped quote"
+    toks = rs.findall('"say \\"hi\\" now"')
+    (ctx.ok(construct, f.loc()) if toks == ['"say \\"hi\\" now"'] else
+     ctx.bad(construct, f"`\"say \\\"hi\\\" now\"` is read as {toks}: words between escaped quotes are taken for config names", f.loc()))
+
+
 def rules():
-    return [("R18.8", r18_8, 1), ("R18.7", r18_7, 3), ("R18.1", r18_1, 3), ("R18.2", r18_2, 4), ("R18.3", r18_3, 3), ("R18.4", r18_4, 2), ("R18.5", r18_5, 4), ("R18.6", r18_6, 4)]
+    return [("R18.9", r18_9, 2), ("R18.8", r18_8, 1), ("R18.7", r18_7, 3), ("R18.1", r18_1, 3), ("R18.2", r18_2, 4), ("R18.3", r18_3, 3), ("R18.4", r18_4, 2), ("R18.5", r18_5, 4), ("R18.6", r18_6, 4)]
